@@ -625,6 +625,12 @@ __strfd_card(
 		}
 		break;
 	case DT_SPFL_S_MON:
+		/* calendars without a month slot, as for %m */
+		if (UNLIKELY(!d->m && (!d->d || d->flags.d_dcnt_p))) {
+			__strfd_get_md(d, that);
+		} else if (UNLIKELY(!d->m)) {
+			__strfd_get_m(d, that);
+		}
 		switch (s.abbr) {
 		case DT_SPMOD_NORM:
 			res = arritostr(
@@ -702,8 +708,10 @@ __strfd_card(
 			break;
 		}
 		case DT_YD:
+			/* d->d might have been turned into the day of the
+			 * month by an earlier %d or %m */
 			res = ui999topstr(
-				buf, bsz, d->d,
+				buf, bsz, that.yd.d,
 				3 - (s.pad == DT_SPPAD_OMIT) << 1U, padchar(s));
 			break;
 		case DT_LDN:
@@ -711,6 +719,14 @@ __strfd_card(
 			break;
 		case DT_JDN:
 			res = snprintf(buf, bsz, "%.6f", that.jdn);
+			break;
+		case DT_YMCW:
+		case DT_YWD:
+		case DT_DAISY:
+			/* go through the yd calendar */
+			res = ui999topstr(
+				buf, bsz, dt_dconv(DT_YD, that).yd.d,
+				3 - (s.pad == DT_SPPAD_OMIT) << 1U, padchar(s));
 			break;
 		default:
 			break;
